@@ -166,7 +166,8 @@ def run(module, cfg=None, workers=1, timeout=600, env=None, extra=None, name=Non
     finished = "Model checking completed" in out or "Finished in" in out
     r.ok = finished and rc == 0 and r.violated is None
     if r.violated is None and rc != 0 and simulate is None:
-        raise TLCFailure("TLC failed (rc=%s): %s\n%s" % (rc, r.cmd, out[-4000:]))
+        i = out.find("Error:")
+        raise TLCFailure("TLC failed (rc=%s): %s\n%s\n...\n%s" % (rc, r.cmd, out[i:i + 1500] if i >= 0 else "", out[-2500:]))
     return r
 
 
